@@ -477,7 +477,8 @@ PROPS = {
         "Hd.Pool.C06_idle_same_origin", "Hd.Pool.step_originInv", "Hd.Pool.run_originInv", "Hd.Pool.step_coSame",
         "Hd.Pool.C06_tokenOf", "Hd.Pool.C06_tokens_distinct", "Hd.Pool.C06_new_conn_origin", "Hd.Pool.keysOk_init"]),
     "C14": pool_prop("HdModel.Props.C14", ["C14/"], ["Hd.Pool.C14_preempt", "Hd.Pool.pushLoop_first_live", "Hd.Pool.C14_keeps_listening",
-        "Hd.Pool.C14_continue", "Hd.Pool.C14_discard"]),
+        "Hd.Pool.C14_continue", "Hd.Pool.C14_discard", "Hd.Pool.C14_listener_is_queued", "Hd.Pool.C14_release_serves_a_listener",
+        "Hd.Pool.pushLoop_delivers", "Hd.Pool.step_queued", "Hd.Pool.run_queued"]),
     "C15": pool_prop("HdModel.Props.C15", ["C15/"], ["Hd.Pool.C15_idle_bound", "Hd.Pool.step_idleBound", "Hd.Pool.push_idleBound"], timed=True),
     "C18": {
         "props_module": "HdModel.Props.C18",
